@@ -89,8 +89,8 @@ Proof.
 Qed.
 
 (* ---------- the trace projection ---------- *)
-Lemma acts_cons t s n' sc' tm' a b d e f :
-  acts (St n' (t :: tr s) sc' tm' a b d e f) = acts s ++ (if is_act t then [t] else []).
+Lemma acts_cons t s n' sc' tm' a b d e f g h i :
+  acts (St n' (t :: tr s) sc' tm' a b d e f g h i) = acts s ++ (if is_act t then [t] else []).
 Proof.
   unfold acts. cbn [tr rev]. rewrite filter_app. cbn [filter]. destruct (is_act t); reflexivity.
 Qed.
@@ -206,6 +206,21 @@ Proof.
   intros al s Hs Ha. unfold set_hooked. cbn [fst snd cut ncb outcome]. rewrite app_nil_r, Z.add_0_r.
   split; [keeps_triv|]. repeat split; try reflexivity. intros _. symmetry; exact Ha.
 Qed.
+Lemma Sem_set_wstate v : Sem (set_wstate v) [] tt.
+Proof.
+  intros al s Hs Ha. unfold set_wstate. cbn [fst snd cut ncb outcome]. rewrite app_nil_r, Z.add_0_r.
+  split; [keeps_triv|]. repeat split; try reflexivity. intros _. symmetry; exact Ha.
+Qed.
+Lemma Sem_set_buf_ok b : Sem (set_buf_ok b) [] tt.
+Proof.
+  intros al s Hs Ha. unfold set_buf_ok. cbn [fst snd cut ncb outcome]. rewrite app_nil_r, Z.add_0_r.
+  split; [keeps_triv|]. repeat split; try reflexivity. intros _. symmetry; exact Ha.
+Qed.
+Lemma Sem_set_buf_canvas o : Sem (set_buf_canvas o) [] tt.
+Proof.
+  intros al s Hs Ha. unfold set_buf_canvas. cbn [fst snd cut ncb outcome]. rewrite app_nil_r, Z.add_0_r.
+  split; [keeps_triv|]. repeat split; try reflexivity. intros _. symmetry; exact Ha.
+Qed.
 Lemma SemA_set_alarms al l : SemA al (set_alarms l) [] (ROk tt) (eq l).
 Proof.
   intros s Hs Ha. unfold set_alarms. cbn [fst snd cut ncb outcome]. rewrite app_nil_r, Z.add_0_r.
@@ -245,11 +260,26 @@ Proof.
   unfold update_overlay, overlay_spec. destruct (c_pop_ups c); [apply Sem_cb; reflexivity|apply Sem_ret].
 Qed.
 
+Lemma Sem_widget_changed : Sem widget_changed [] tt.
+Proof. unfold widget_changed. apply Sem_get. intros ws. apply Sem_set_wstate. Qed.
+
+Lemma Sem_changed_if (b : bool) : Sem (if b then widget_changed else ret tt) [] tt.
+Proof. destruct b; [apply Sem_widget_changed|apply Sem_ret]. Qed.
+
 Lemma Sem_topmost_keypress x :
   Sem (topmost_keypress c p x) (overlay_spec c ++ [TKeypress x]) (widget_keypress c x).
 Proof.
   unfold topmost_keypress. apply Sem_seq; [apply Sem_update_overlay|].
-  eapply Sem_conv; [eapply Sem_seq; [apply Sem_cb; reflexivity|apply Sem_ret]|reflexivity].
+  eapply Sem_conv; [eapply Sem_seq; [apply Sem_cb; reflexivity|]|reflexivity].
+  eapply Sem_conv; [eapply Sem_seq; [apply Sem_changed_if|apply Sem_ret]|reflexivity].
+Qed.
+
+Lemma Sem_widget_mouse_event b cl rw :
+  Sem (widget_mouse_event c p b cl rw) [TMouse b cl rw] (widget_mouse c b).
+Proof.
+  unfold widget_mouse_event.
+  eapply Sem_conv; [eapply Sem_seq; [apply Sem_cb; reflexivity|]|reflexivity].
+  eapply Sem_conv; [eapply Sem_seq; [apply Sem_changed_if|apply Sem_ret]|reflexivity].
 Qed.
 
 Hypothesis wf : wf_config c.
@@ -260,11 +290,9 @@ Lemma Sem_topmost_mouse_event b cl rw :
       (if w_has_mouse c then widget_mouse c b else false).
 Proof.
   unfold topmost_mouse_event. destruct (c_pop_ups c) eqn:Epu.
-  - rewrite (wf Epu). apply Sem_seq; [apply Sem_update_overlay|].
-    eapply Sem_conv; [eapply Sem_seq; [apply Sem_cb; reflexivity|apply Sem_ret]|reflexivity].
+  - rewrite (wf Epu). apply Sem_seq; [apply Sem_update_overlay|apply Sem_widget_mouse_event].
   - destruct (w_has_mouse c).
-    + unfold overlay_spec. rewrite Epu. cbn [app].
-      eapply Sem_conv; [eapply Sem_seq; [apply Sem_cb; reflexivity|apply Sem_ret]|reflexivity].
+    + unfold overlay_spec. rewrite Epu. cbn [app]. apply Sem_widget_mouse_event.
     + apply Sem_ret.
 Qed.
 
@@ -285,7 +313,10 @@ Proof.
 Qed.
 
 Lemma Sem_screen_clear : Sem screen_clear [] tt.
-Proof. apply Sem_emit_silent; reflexivity. Qed.
+Proof.
+  unfold screen_clear.
+  eapply Sem_conv; [eapply Sem_seq; [apply Sem_emit_silent; reflexivity|apply Sem_set_buf_ok]|reflexivity].
+Qed.
 
 Lemma Sem_after_widget k : Sem (after_widget c p k) (spec_after c k) tt.
 Proof.
@@ -345,8 +376,12 @@ Proof.
   eapply Sem_conv; [eapply Sem_seq; [apply Sem_emit_draw|]|apply app_nil_r].
   destruct (c_hook c) eqn:Eh; [|apply Sem_ret].
   apply Sem_get_started.
-  eapply Sem_conv; [eapply Sem_seq; [apply Sem_write_cursor; exact Eh|apply Sem_when; apply Sem_write_cursor; exact Eh]|].
-  destruct (w_cursor c); reflexivity.
+  apply Sem_get. intros ok. apply Sem_get. intros bc. apply Sem_get. intros ws.
+  destruct (ok && negb (c_pop_ups c) && match bc with Some k => k =? ws | None => false end); [apply Sem_ret|].
+  eapply Sem_conv; [eapply Sem_seq; [apply Sem_write_cursor; exact Eh|]|apply app_nil_l].
+  eapply Sem_conv; [eapply Sem_seq; [apply Sem_when; apply Sem_write_cursor; exact Eh|]|].
+  2: { instantiate (1 := []). destruct (w_cursor c); reflexivity. }
+  eapply Sem_conv; [eapply Sem_seq; [apply Sem_set_buf_ok|apply Sem_set_buf_canvas]|reflexivity].
 Qed.
 
 Lemma Sem_draw_screen : Sem (draw_screen c p) (spec_draw c) tt.
@@ -366,7 +401,8 @@ Proof. destruct a; cbn [fire_alarm spec_alarm]; [apply Sem_cb; reflexivity|apply
 
 Lemma Sem_deliver e : Sem (deliver c p e) (spec_event c e) tt.
 Proof.
-  destruct e; cbn [deliver spec_event]; try (apply Sem_cb; reflexivity); apply Sem_update.
+  destruct e; cbn [deliver spec_event]; try (apply Sem_cb; reflexivity); try apply Sem_update.
+  eapply Sem_conv; [eapply Sem_seq; [apply Sem_set_buf_ok|apply Sem_update]|apply app_nil_l].
 Qed.
 
 Lemma Sem_do_round r : Sem (do_round c p r) (spec_round c r) tt.
@@ -584,6 +620,8 @@ Lemma Silent_set_hooked b : Silent (set_hooked b).
 Proof. intros s; split; reflexivity. Qed.
 Lemma Silent_set_alarms l : Silent (set_alarms l).
 Proof. intros s; split; reflexivity. Qed.
+Lemma Silent_set_buf_ok b : Silent (set_buf_ok b).
+Proof. intros s; split; reflexivity. Qed.
 
 Ltac silent_step :=
   lazymatch goal with
@@ -597,6 +635,7 @@ Ltac silent_step :=
   | |- Silent (set_idle_reg _) => apply Silent_set_idle_reg
   | |- Silent (set_hooked _) => apply Silent_set_hooked
   | |- Silent (set_alarms _) => apply Silent_set_alarms
+  | |- Silent (set_buf_ok _) => apply Silent_set_buf_ok
   | |- Silent (emit _) => apply Silent_emit; reflexivity
   | |- Silent (bindM _ _) => apply Silent_bind; [|intros]
   | |- Silent (if ?b then _ else _) => destruct b
@@ -663,7 +702,7 @@ Lemma hook_stop_state c ti w t cn (s2 : st) :
    s_started (scr (snd (ml_stop c s2))) = false).
 Proof.
   destruct c as [hook filt unh hm pu pa fo ia ps pre sel hasm wk wm cur]. cbn [c_hook]. intros ->.
-  destruct s2 as [n2 tr2 sc2 tm2 sk2 cn2 ir2 hk2 al2]. cbn [scr tm]. intros Hsc Htm. subst sc2.
+  destruct s2 as [n2 tr2 sc2 tm2 sk2 cn2 ir2 hk2 al2 ws2 bo2 bc2]. cbn [scr tm]. intros Hsc Htm. subst sc2.
   destruct tm2 as [a1 a2 a3 a4 a5 a6 a7 a8 a9 a10 a11 a12].
   unfold TM, normal_term in Htm. cbn [c_handle_mouse c_paste c_focus c_isatty t_tios t_winch t_tstp t_cont fst] in Htm.
   change (set_mode 25 true (Term a1 a2 a3 a4 a5 a6 a7 a8 a9 a10 a11 a12)) with (Term a1 true a3 a4 a5 a6 a7 a8 a9 a10 a11 a12) in Htm.
@@ -731,7 +770,7 @@ Lemma plain_stop_state c ti w t cn (s2 : st) :
   s_started (scr (snd (screen_stop c s2))) = false.
 Proof.
   destruct c as [hook filt unh hm pu pa fo ia ps pre sel hasm wk wm cur]. cbn [c_hook]. intros ->.
-  destruct s2 as [n2 tr2 sc2 tm2 sk2 cn2 ir2 hk2 al2]. cbn [scr tm]. intros -> ->.
+  destruct s2 as [n2 tr2 sc2 tm2 sk2 cn2 ir2 hk2 al2 ws2 bo2 bc2]. cbn [scr tm]. intros -> ->.
   vm_compute. repeat split; reflexivity.
 Qed.
 
